@@ -47,8 +47,24 @@ def case_key(line):
     return line
 
 
+def interleave(path, k=16):
+    """lib/verif.py shards a cases file into contiguous chunks; expensive natives come in runs, so
+    deal the lines round-robin: chunk i gets every k-th line."""
+    lines = open(path, "rb").read().split(b"\n")
+    if lines and lines[-1] == b"":
+        lines.pop()
+    if len(lines) < 4000:
+        return
+    with open(path, "wb") as f:
+        for i in range(k):
+            part = lines[i::k]
+            if part:
+                f.write(b"\n".join(part) + b"\n")
+
+
 def run_cases(c, exe_m, cases, stream, st):
     """model and spec judgement of a cases file; returns number of skipped lines"""
+    interleave(cases)
     mism = V.compare_model(c, exe_m, cases, stream)
     skipped = {}
     real = []
